@@ -168,7 +168,7 @@ HasRead(what, id) == \E q \in 1..Len(reads) : reads[q] = <<what, id>>
 
 \* errnorm marker: e.in = <<previous u, proposed u, proposed cached linearisation>>,
 \* e.i = <<dt, t_prop, relin, kind (0 residual / 1 state), didx, per_unit, norm (0 scale-then-rms / 1 rms-then-scale),
-\*         residual_order, atol num, atol den, rtol num, rtol den>>
+\*         residual_order, atol num, atol den, rtol num, rtol den, scalar std (0/1: one std per coefficient, as in the isotropic model)>>
 \* -> <<problem, expected squared norm>>
 ErrnormExpect(e) ==
   LET prev == Tm(e.in[1])   prop == Tm(e.in[2])
@@ -195,12 +195,13 @@ ErrnormExpect(e) ==
       dtr == R(dt, 1048576)
       fac == RMul(RPow(dtr, n), R(1, FactN(n)))
       sc == IF state THEN RMul(RmsOf(oid), StdBase(eid, k)) ELSE StdBase(eid, k)
-      e0 == RMul(sc, fac)          e1 == RMul(RInt(2), e0)
+      scalarStd == Len(e.i) >= 13 /\ e.i[13] = 1
+      e0 == RMul(sc, fac)          e1 == IF scalarStd THEN e0 ELSE RMul(RInt(2), e0)
       mb == RMax(MeanBase(e.in[1], k), MeanBase(e.in[2], k))
       w0 == RAdd(atol, RMul(rtol, mb))   w1 == RAdd(atol, RMul(rtol, RMul(RInt(7), mb)))   wr == RAdd(atol, RMul(rtol, RMul(RInt(5), mb)))
       sq(x) == RMul(x, x)
       n2 == IF rmsThenScale
-            THEN RDiv(RMul(R(1, 2), RAdd(sq(e0), sq(e1))), sq(wr))
+            THEN RDiv(IF scalarStd THEN sq(e0) ELSE RMul(R(1, 2), RAdd(sq(e0), sq(e1))), sq(wr))
             ELSE RMul(R(1, 2), RAdd(sq(RDiv(e0, w0)), sq(RDiv(e1, w1))))
   IN IF prev.k # "N" \/ prop.k # "N" THEN <<"errnorm: previous/proposed states are not marginals", RZero>>
      ELSE IF ~structure THEN <<"errnorm: the error is not the (locally calibrated) std of the observed mean-only extrapolation with the configured linearisation", RZero>>
